@@ -287,7 +287,8 @@ from vf.engine.vc import ContractStop  # noqa: E402
 from vf.engine.values import Builtin, Opaque  # noqa: E402
 
 
-@contract(HD + "._compute", ["C02", "C15"], [dict(nd=nd, reach=r, deltas=dk) for nd in (2, 3) for r in ("reached", "not_reached") for dk in ("list",)],
+@contract(HD + "._compute", ["C02", "C15", "C19"], [dict(nd=nd, reach=r, deltas=dk) for nd in (2, 3) for r in ("reached", "not_reached") for dk in ("list",)]
+          + [dict(nd=2, reach="reached", deltas="list", reversed_limits=True)],
           name="hdc.compute.region")
 class HdcComputeRegion(Contract):
     """_compute up to the boundary extraction: grid = min + k*delta per axis; cell probabilities = cell-averaged
@@ -296,7 +297,7 @@ class HdcComputeRegion(Contract):
     the erosion is called on that region with the full 3^n structure.  (Verified up to the call of ndi.binary_erosion.)"""
 
     def case_label(self, case):
-        return f"n_dim={case['nd']},{case['reach']}"
+        return f"n_dim={case['nd']},{case['reach']}" + (",limits given as (max, min)" if case.get("reversed_limits") else "")
 
     def setup(self, itp, case):
         me = self
@@ -345,7 +346,11 @@ class HdcComputeRegion(Contract):
         for i in range(nd):
             cx.assume(T.land(T.lt(self.mins[i].t, self.maxs[i].t), T.gt(self.deltas[i].t, 0)))
         limits = [(self.mins[i], self.maxs[i]) for i in range(nd)]
-        self.obj = SObj(HD, {"model": self.model, "alpha": self.alpha, "limits": limits, "deltas": list(self.deltas)}, owner="call")
+        if case.get("reversed_limits"):
+            limits[0] = (self.maxs[0], self.mins[0])   # documented as accepted: the order within a pair does not matter
+        self.limits_list, self.limits_before = limits, [tuple(t) for t in limits]
+        self.deltas_list, self.deltas_before = list(self.deltas), list(self.deltas)
+        self.obj = SObj(HD, {"model": self.model, "alpha": self.alpha, "limits": limits, "deltas": self.deltas_list}, owner="call")
         return [self.obj], {}
 
     def post(self, itp, case, inp, out):
@@ -377,6 +382,12 @@ class HdcComputeRegion(Contract):
         pm = self.prob_m if case["reach"] == "reached" else 0
         cx.oblige("post.fm", T.eq(T.mul(term_of(self.fm_local), vol), pm) if self.fm_local is not None and is_scalar(self.fm_local) else False, "post",
                   "fm x cell volume = probability of the least dense enclosed cell (0 on the warning path)")
+        same = lambda a, b: a is b or (is_scalar(a) and is_scalar(b) and cx.valid(T.eq(term_of(a), term_of(b))))  # noqa: E731
+        lim_ok = len(self.limits_list) == len(self.limits_before) and all(
+            isinstance(t, (tuple, list)) and len(t) == 2 and same(t[0], b[0]) and same(t[1], b[1]) for t, b in zip(self.limits_list, self.limits_before))
+        cx.oblige("frame.limits", bool(lim_ok), "frame", "the caller's limits object is left as it was given (also when a pair is given as (max, min))")
+        cx.oblige("frame.deltas", len(self.deltas_list) == len(self.deltas_before) and all(a is b for a, b in zip(self.deltas_list, self.deltas_before)), "frame",
+                  "the caller's deltas object is left as it was given")
         ok_struct = isinstance(structure, SArr) and structure.ndim == nd and all(isinstance(e, int) and e == 3 for e in structure.shape)
         cx.oblige("post.full_structure.shape", ok_struct, "post", "structuring element is 3 x ... x 3")
         if ok_struct:
